@@ -64,7 +64,8 @@ def teardown_atomizer(F, nostd):
         if is_call(inner, r'^std::thread::panicking$'):
             return ('panicking', {int(t)})
         if nostd and is_call(inner, r'private::MutexIsh::locked$') and any(
-                field_path(a)[1][-1:] == ['panicked'] for a in inner[2]):
+                field_path(a)[1] == ['panicked'] and field_path(a)[0] in (('param', 0, 1), ('deref', ('param', 0, 1))) for a in inner[2]):
+            # (this instance's own flag: a flag kept with the shared state would let a failure seen through any clone silence the original)
             return ('panicking', {int(t)})
         cmp = as_comparison(inner)
         if cmp:
@@ -194,6 +195,21 @@ def teardown_pre_effects(chk, F, rule, config, fn, paths):
                    config=config, fn=fn, site='pre:%s' % what, what='pre-effect %s missing or late' % what,
                    found={'first_at_decision': first.get(what), 'path_outcome': teardown_outcome(p)},
                    expected='effect present with no decision before it')
+            if not ok:
+                break
+    # what was taken out is dropped *there* - before the first branch, in particular before the live-clone count is read: a value
+    # that is merely bound to a name lives until the function returns and would still be counted as a live handle
+    for p in paths:
+        for what, rx, fld in (('release_helper', r'OnceCell::take$', 'default_impl_delegator_cell'), ('release_chain', r'core::mem::(take|replace)$', 'value_chain')):
+            takes = [e for e in p.effects if e.kind == 'call' and re.search(rx, e.data[1]) and e.data[2] and field_path(e.data[2][0])[1] == [fld]]
+            if not takes:
+                continue
+            tv = ('call', takes[0].data[1], takes[0].data[2], takes[0].data[3])
+            drops = [e for e in p.effects if (e.kind == 'call' and re.search(r'core::mem::drop$', e.data[1]) and mentions(e.data[2][0], lambda x: x[0] == 'call' and x[1] == tv[1] and x[3] == tv[3])) or
+                     (e.kind == 'drop' and mentions(e.data[0], lambda x: x[0] == 'call' and x[1] == tv[1] and x[3] == tv[3]))]
+            ok = bool(drops) and min(e.ndec for e in drops) == 0
+            chk.ob(rule, 'what teardown takes out (`%s`) is dropped before the first branch' % what, ok, config=config, fn=fn, site='pre:drop-now', what='%s dropped late or not at all' % what,
+                   found={'drops_after_decisions': sorted(set(e.ndec for e in drops))}, expected='dropped with no decision before it')
             if not ok:
                 break
     # released values are dropped (passed to mem::drop or Drop terminator), not forgotten
